@@ -15,9 +15,10 @@ CRATE_DEPS = {
     'lightning': ['lightning', 'lightning-types', 'lightning-invoice', 'lightning-macros'],
     'lightning-invoice': ['lightning-invoice', 'lightning-types'],
     'lightning-types': ['lightning-types'],
+    'lightning-block-sync': ['lightning-block-sync'],
 }
 CRATE_FEATURES = {'lightning': ['--features', '_verif'], 'lightning-invoice': ['--features', 'std'],
-                  'lightning-types': []}
+                  'lightning-types': [], 'lightning-block-sync': []}
 
 
 def src_hash(crates):
@@ -229,7 +230,7 @@ class Session:
 
     def decls(self):
         if self._decls is None:
-            self._decls = Decls([os.path.join(REPO, c, 'src') for c in ('lightning', 'lightning-types', 'lightning-invoice')])
+            self._decls = Decls([os.path.join(REPO, c, 'src') for c in ('lightning', 'lightning-types', 'lightning-invoice', 'lightning-block-sync')])
         return self._decls
 
     def oracle(self):
